@@ -44,6 +44,8 @@ int (* vk_on_connect)(struct vsock *, int, struct vk_connect_answer *);
 int (* vk_on_socket)(void);
 int (* vk_on_bind)(struct vsock *);
 void (* vk_on_close)(struct vsock *);
+const char * vk_block_oracle;
+int vk_bare_err;
 void (* vk_on_recv)(struct vsock *, long, int);
 const void * vk_last_recv_buf;
 size_t vk_last_recv_len;
@@ -97,6 +99,7 @@ vk_new_stream(void)
 	struct vsock * s = vk_alloc();
 
 	s->cstate = 2;
+	s->nonblock = 1;	/* what the harness hands to the library is non-blocking, as its interface requires */
 	return (s);
 }
 
@@ -106,6 +109,7 @@ vk_new_listener(void)
 	struct vsock * s = vk_alloc();
 
 	s->listening = 1;
+	s->nonblock = 1;
 	return (s);
 }
 
@@ -321,6 +325,11 @@ readiness(struct vsock * s, short events)
 		rv |= POLLERR;
 	if (s->hup)
 		rv |= POLLHUP;
+	if (vk_bare_err && s->rx_err && s->cstate != 3 && !(s->rxpos < s->rxavail)) {
+		/* some descriptors (datagram sockets, some platforms) report a pending error as POLLERR alone */
+		rv = POLLERR;
+		vk_stats.bare_err++;
+	}
 	if (rv & (POLLERR | POLLHUP))
 		vk_stats.hup_reported++;
 	return (rv);
@@ -655,6 +664,23 @@ __wrap_connect(int fd, const struct sockaddr * sa, socklen_t salen)
 		TR(0xA3, fd, port, "connect(fd=%d, port=%d) -> 0", fd, port);
 		return (0);
 	}
+	if ((a.rc_errno == EINPROGRESS || a.rc_errno == EINTR) && !s->nonblock) {
+		/* A blocking descriptor: the kernel makes the caller wait for the conclusion. */
+		vk_stats.connect_blocking++;
+		if (a.never) {
+			if (vk_block_oracle != NULL)
+				sim_viol(vk_block_oracle, "blocking-connect", "connect(2) on a descriptor that is not non-blocking, to an address that never answers: the whole process is stuck inside the call (no timer, no other event can run)");
+			sim_internal("vkernel: blocking connect that never concludes");
+		}
+		vk_now_ns += a.delay_ns;
+		TR(0xA7, fd, port, "connect(fd=%d, port=%d) on a BLOCKING descriptor: waited %lu ns -> %d", fd, port, (unsigned long)a.delay_ns, a.async_result_errno);
+		if (a.async_result_errno == 0) {
+			s->cstate = 2;
+			return (0);
+		}
+		errno = a.async_result_errno;
+		return (-1);
+	}
 	if (a.rc_errno == EINPROGRESS || a.rc_errno == EINTR) {
 		s->cstate = 1;
 		if (!a.never) {
@@ -711,8 +737,17 @@ __wrap_fcntl(int fd, int cmd, ...)
 	va_start(ap, cmd);
 	arg = va_arg(ap, long);
 	va_end(ap);
-	if (vk_sock(fd) != NULL)
+	if (vk_sock(fd) != NULL) {
+		struct vsock * s = vk_sock(fd);
+
+		if (cmd == F_SETFL) {
+			s->nonblock = (arg & O_NONBLOCK) ? 1 : 0;
+			return (0);
+		}
+		if (cmd == F_GETFL)
+			return (O_RDWR | (s->nonblock ? O_NONBLOCK : 0));
 		return (0);
+	}
 	return (__real_fcntl(fd, cmd, arg));
 }
 
@@ -824,13 +859,34 @@ __wrap_close(int fd)
 /* The library's warnings may be switched to syslog mode (warnp_syslog): nothing leaves the process. */
 uint64_t vk_syslog_calls;
 
+extern char __executable_start, end;	/* linker-defined: the image of the program, constants included */
+
 void
 __wrap_syslog(int prio, const char * fmt, ...)
 {
+	const char * p;
 
 	(void)prio;
-	(void)fmt;
 	vk_syslog_calls++;
+	/*
+	 * syslog(3) interprets its second argument as a printf format.  A format that is not one of the program's
+	 * constants (it lives on the stack or the heap, i.e. it was assembled at run time) and contains conversion
+	 * specifications makes the real function fetch arguments that were never passed.
+	 */
+	if (fmt >= &__executable_start && fmt < &end)
+		return;
+	for (p = fmt; (p = strchr(p, '%')) != NULL; p += 2) {
+		if (p[1] == '%')
+			continue;
+		if (vk_block_oracle != NULL) {
+			char o[40];
+
+			snprintf(o, sizeof(o), "%.3s.crash", vk_block_oracle);
+			sim_viol(o, "syslog-format", "syslog() was handed a run-time assembled format string containing conversions (\"%.60s\"): the real function would read arguments that do not exist", fmt);
+			return;
+		}
+		sim_internal("syslog format assembled at run time");
+	}
 }
 
 void
